@@ -666,8 +666,9 @@ impl BuiltInFunction {
 
                 if let Ok(num) = i32::from_str_radix(
                     s,
-                    (*radix)
-                        .try_into()
+                    u32::try_from(*radix)
+                        .ok()
+                        .filter(|radix| (2..=36).contains(radix))
                         .with_context(|| format!("`{radix}` is an invalid radix"))?,
                 ) {
                     Ok((
@@ -695,8 +696,9 @@ impl BuiltInFunction {
 
                 if let Ok(num) = i128::from_str_radix(
                     s,
-                    (*radix)
-                        .try_into()
+                    u32::try_from(*radix)
+                        .ok()
+                        .filter(|radix| (2..=36).contains(radix))
                         .with_context(|| format!("`{radix}` is an invalid radix"))?,
                 ) {
                     Ok((
